@@ -520,8 +520,16 @@ pub fn stream(rng: &mut Rng, max_len: usize) -> (Vec<u8>, u32) {
             break;
         }
         let start = s.len();
-        let k = rng.below(16);
+        let k = rng.below(17);
         match k {
+            16 => {
+                // bytes one bit away from the preamble (what a word-at-a-time search for 0xD3 may confuse with it)
+                const NEAR: [u8; 8] = [0xD2, 0xD1, 0xD7, 0xDB, 0xC3, 0xF3, 0x93, 0x53];
+                for _ in 0..rng.range(1, 9) {
+                    s.push(*rng.pick(&NEAR));
+                }
+                tags |= 16384;
+            }
             15 => {
                 // what real links put between frames: line ends, other protocols' sync bytes, text
                 const DELIMITERS: [&[u8]; 10] = [b"\r\n", b"\n", b"\r", b"\r\n\r\n", b"$GPGGA,123519,4807.038,N*47\r\n", &[0xB5, 0x62, 0x01, 0x07], &[0x24, 0x40], &[0x10, 0x03], &[0x7E], b"ICY 200 OK\r\n"];
@@ -729,6 +737,45 @@ pub fn long_stream(rng: &mut Rng, max_len: usize) -> Vec<u8> {
     s
 }
 
+/// 1007 / 1008 / 1033 frames whose descriptor strings all hold `text` (at most 31 bytes), written by the reference
+pub fn descriptor_frame(n: u16, text: &[u8]) -> Vec<u8> {
+    let t = &text[..text.len().min(31)];
+    let mut b = bits::BitBuf::new();
+    b.push(n as u128, 12);
+    b.push(0x123, 12);
+    let strings = match n {
+        1007 => 1,
+        1008 => 2,
+        _ => 5,
+    };
+    for k in 0..strings {
+        b.push(t.len() as u128, 8);
+        for &c in t {
+            b.push(c as u128, 8);
+        }
+        if k == 0 {
+            b.push(0x5A, 8); // antenna setup id follows the first string
+        }
+    }
+    crc::frame(&b.into_bytes())
+}
+
+/// descriptor texts with the endings and fillers receivers really send
+pub const DESCRIPTOR_TEXTS: [&[u8]; 12] = [
+    b"TRM59800.00     ",
+    b"TRM59800.00     SCIS",
+    b"LEIAR25.R4      LEIT",
+    b"ABC\0\0\0",
+    b"\0",
+    b" ",
+    b"  ",
+    b"X ",
+    b" X",
+    b"NONE\0",
+    b"ASH701945E_M    SNOW\0\0\0\0\0\0\0\0\0\0\0",
+    b"\xA4\xFF\xE9 ",
+];
+
 /// A long run of dead candidates in front of and between deliverable frames: what a scanner sees when it is pointed
 /// at foreign binary data, at a burst of damaged frames or at a line stuck at 0xD3.  The number of rejected candidates
 /// in one scanner call is aimed at the places where a counter, a depth or a budget would give out.
@@ -812,7 +859,7 @@ fn pick_len(rng: &mut Rng) -> usize {
     }
 }
 
-pub const STREAM_TAGS: [&str; 14] = [
+pub const STREAM_TAGS: [&str; 15] = [
     "valid_random_frame",
     "valid_typed_frame",
     "garbage",
@@ -827,4 +874,5 @@ pub const STREAM_TAGS: [&str; 14] = [
     "previous_frame_repeated_with_variation",
     "frame_with_zero_checksum_or_zero_register",
     "line_ends_and_foreign_protocol_bytes_between_frames",
+    "bytes_one_bit_away_from_the_preamble",
 ];
